@@ -16,8 +16,17 @@ def tla_set(xs):
     return "{" + ", ".join(xs) + "}"
 
 
+def tla_inputs(inputs):
+    """list of inputs (each a list of {flags, blocks, tail}) as a TLA+ set of sequences of records"""
+    def rec(f):
+        return '[flags |-> %s, blocks |-> <<%s>>, tail |-> <<%s>>]' % (
+            tla_set('"%s"' % x for x in f["flags"]), ", ".join('"%s"' % b for b in f["blocks"]),
+            ", ".join('[c |-> "%s", n |-> %d]' % (t["c"], t["n"]) for t in f["tail"]))
+    return tla_set("<<" + ", ".join(rec(f) for f in inp) + ">>" for inp in inputs)
+
+
 def cfg_for(path, dev="none", sparsefrag=False, nf=2, mb=1, ids=None, backlogs=(3, 4), flagsets=None, tails=(1, 3),
-            perfect=False, emit=False, invariants=("Safety", "Deterministic"), chain=None, failids=(), finish_checks=True):
+            perfect=False, emit=False, invariants=("Safety", "Deterministic"), chain=None, failids=(), finish_checks=True, explicit=None):
     ids = ids or DEFAULT_IDS
     flagsets = flagsets if flagsets is not None else [[], ["IGNORE_SPARSE"]]
     idset = tla_set('"%s"' % i for i in ids)
@@ -28,6 +37,7 @@ def cfg_for(path, dev="none", sparsefrag=False, nf=2, mb=1, ids=None, backlogs=(
                          "Backlogs": set(backlogs), "Zero": '"z"', "TailSizes": set(tails), "PerfectHash": perfect, "Emit": emit,
                          "FinishChecksStatus": finish_checks},
               defs={"ContentIds": idset, "H": "[x \\in %s |-> 0]" % idset, "CS": cs, "FlagSets": fs,
+                    "ExplicitInputs": tla_inputs(explicit or []),
                     "FailIds": tla_set('"%s"' % c for c in failids),
                     "ChainSeq": "<<%s>>" % ", ".join('"%s"' % c for c in (chain or []))},
               invariants=list(invariants), deadlock=False)
